@@ -4,23 +4,13 @@ import vf
 
 LEVEL = "model_checking"
 
-# Genuine deviations found by this check that are not yet in known_findings.json (BUILDING.md, "Known findings").
-# They are matched exactly like entries of that file: after TLC has rejected an event, the event is compared with
-# the key; only then is the clause relaxed (TOLFLIP / TOLTRANS of SoftClipTrace) for that trace chunk.
-PROVISIONAL = [
-    dict(property="C19", status="known", id="F19a",
-         key=dict(k="clip", clause="signflip", fp=">0", fb=0, where="|x| < 2^-10 and |y| < 2^-10"),
-         what="opus_pcm_soft_clip flips the sign of tiny samples: the frame-start ramp (clipping before the first zero crossing, "
-              "src/opus.c 'offset -= delta') leaves a rounding residue of the opposite sign which is added to the samples before "
-              "the peak, so e.g. x = +1e-9 comes out as -2.9e-8 (observed |y| up to 6e-5 on long frames)"),
-    dict(property="C19", status="known", id="F19b",
-         key=dict(k="gdec", clause="gain_ratio_head", trans=1, where="first 5 ms after a mode change without redundancy"),
-         what="decoder gain applied twice on mode transitions: opus_decode_frame() calls itself to produce the concealment frame "
-              "it cross-fades from (pcm_transition), that inner call already applies decode_gain, and the outer call applies it "
-              "again to the cross-faded samples - the first 2.5-5 ms after a SILK/hybrid <-> CELT change without redundancy are "
-              "scaled by up to 10^(2g/5120) instead of 10^(g/5120)"),
-]
-TOLFLAG = {"F19a": "TOLFLIP", "F19b": "TOLTRANS"}
+# Deviations found by this check, now repaired in /repo and listed as "fixed" in known_findings.json (F11: sign flips of tiny
+# samples by the soft clipper's frame-start ramp, commit 079292ff; F12: decoder gain applied twice to the cross-fade after a mode
+# change, commit ec737545; F0: 24-bit output wrapped, commit 35de4c7b).  "fixed" suppresses nothing: a reappearance is a VIOLATION.
+# The matching machinery is kept: should one of these ids ever be listed with status "known", the event TLC rejected is compared
+# with the key below and only then is the clause relaxed (TOLFLIP / TOLTRANS of SoftClipTrace) for that trace chunk.
+PROVISIONAL = []
+TOLFLAG = {"F11": "TOLFLIP", "F12": "TOLTRANS"}
 
 GAINS = [-32768, -5120, -1, 0, 1, 256, 5120, 20000, 32767]
 BADGAINS = [-32769, 32768, 40000, -100000, 1073741824]
@@ -49,17 +39,20 @@ def active_findings():
 
 
 def is_trans(e):
-    return e.get("md", 0) != 0 and e.get("pm", 0) > 0 and (
-        (e["md"] == 1002 and e["pm"] != 1002 and e["pr"] == 0) or (e["md"] != 1002 and e["pm"] == 1002))
+    """SoftClipTrace!IsTrans"""
+    if e.get("md", 0) == 0 or e.get("pm", 0) <= 0:
+        return False
+    return ((e["md"] == 1002 and e["pm"] != 1002 and e["pr"] == 0) or (e["md"] != 1002 and e["pm"] == 1002)
+            or (e["kind"] == 2 and e["md"] != 1002 and e["pr"] == 1))
 
 
 def match_finding(e, tol, act):
     """the rejected event against the keys; returns the finding id or None"""
-    if e.get("k") == "clip" and e.get("deg") == 0 and "F19a" in act and tol["TOLFLIP"] == "0":
+    if e.get("k") == "clip" and e.get("deg") == 0 and "F11" in act and tol["TOLFLIP"] == "0":
         if sum(e.get("fp", [])) > 0 and sum(e.get("fb", [1])) == 0:
-            return "F19a"
-    if e.get("k") == "gdec" and "F19b" in act and tol["TOLTRANS"] == "0" and is_trans(e) and (e.get("hn", 0) > 0 or e.get("wh16", 0) > 0 or e.get("mh16", 32767) < 32767):
-        return "F19b"
+            return "F11"
+    if e.get("k") == "gdec" and "F12" in act and tol["TOLTRANS"] == "0" and is_trans(e) and (e.get("hn", 0) > 0 or e.get("zbh", 0) > 0 or e.get("wh16", 0) > 0 or e.get("mh16", 32767) < 32767):
+        return "F12"
     return None
 
 
@@ -138,7 +131,7 @@ def random_sequence(rng):
 
 
 DIRECTED_CLIP = [
-    # reaches finding F19a from cleared memory: a 1e-30 sample just before the peak of a frame that clips before its first zero crossing
+    # regression case of finding F11 (fixed): cleared memory, a 1e-30 sample just before the peak of a frame that clips before its first zero crossing
     "Q 2 L0.704362452,1e-30,0.780430436,0.901427269,0.849869967,1.13762283,0.715072215,0.803308189,1.19392478,1,1e-30,1.07879603,1.15158617,1e-30,1e-30,1.32563448,-0.37362206",
     # the repository's own saw-tooth test pattern, then an in-range frame on the same memory
     "Q 3 L" + ",".join("%g" % (((i % 255) / 8.0) - 16.0) for i in range(1024)) + " L0.5,0.25,-0.25,1,-1,0",
@@ -200,7 +193,7 @@ def gain_lines(ctx, rng, fixed):
 
 
 def splice_lines(ctx, rng):
-    """streams spliced from a speech-only and a transform-only encoder: mode changes without redundancy (reaches F19b)"""
+    """streams spliced from a speech-only and a transform-only encoder: mode changes without redundancy (regression for F12)"""
     lines = []
     n = 2 if ctx.tier == "quick" else 12
     for g in GAINS:
@@ -396,7 +389,7 @@ def confirm_and_report(ctx, exe_by_variant, job, rej, act):
     if rc != 0:
         ctx.violation("hx_softclip %s aborted rc=%d on [%s]: %s" % (mode, rc, line[:300], err[-1200:]), replay_src=rp)
         return
-    tol, rej2, drift = judge(ctx, (k, mode, variant, rp, out2), act, dict(F19a=True, F19b=True))
+    tol, rej2, drift = judge(ctx, (k, mode, variant, rp, out2), act, dict(F11=True, F12=True))
     if rej2 is None:
         raise vf.Infra("rejection of %s line %s did not repeat when [%s] was re-executed alone" % (out, rej, line[:300]))
     ctx.violation("C19 obligation rejected by SoftClipTrace (%s, %s build): input [%s] event %s" % (mode, variant, line[:400], ev[:700]),
@@ -458,7 +451,7 @@ def run(ctx):
                        "gain factor tolerance: 50/25600 dB (half a Q8 step); common-factor tolerance: spread <= 512 * 2^-30 (one float rounding is <= 128)",
                        "integer saturation is judged against the float twin with the same gain (float build) or the gain-0 twin times 10^(g/5120) with a "
                        "factor two of margin (fixed-point build); 'saturated' is read as: same sign and magnitude >= half the container",
-                       "the two findings F19a/F19b are tolerated only on events that match their keys, after TLC rejected them"]
+                       "findings F0, F11, F12 are fixed in /repo; nothing is tolerated"]
     if ctx.replay:
         return replay(ctx)
     act = active_findings()
@@ -570,6 +563,6 @@ META = dict(
                 "for the 16-bit and 24-bit outputs (float and fixed-point builds)."),
     level_note=("Trusted: TLC, Json module, the harness's measurements (digests, counts, ratio statistics). Sample values are not modelled in TLA+; "
                 "[-1,1], sign preservation, the gain factor and saturation are judged on measurements of the explored executions, not proved for all "
-                "signals. Two deviations found (sign flips of tiny samples by the frame-start ramp; gain applied twice on mode transitions) are "
-                "reported as KNOWN-FINDING through provisional entries."),
+                "signals. Two deviations found by this check (F11 sign flips of tiny samples by the frame-start ramp; F12 gain applied twice on mode "
+                "transitions) and F0 (24-bit wrap) are fixed in /repo; their reappearance is a VIOLATION."),
 )
